@@ -23,7 +23,7 @@ import sys
 
 sys.path.insert(0, os.path.dirname(os.path.abspath(__file__)))
 from rtok import lex, untok, match_close, Tok
-from extract import find_item, find_closure, find_call_arg, LostAnchor
+from extract import find_item, find_closure, find_call_arg, find_region, LostAnchor
 import rules as R
 
 VERIF = os.path.dirname(os.path.dirname(os.path.abspath(__file__)))
@@ -218,6 +218,8 @@ def build(template_path, repo, variant="strict", inline=None):
                 opts.setdefault("cuts", []).append((mm.group(1), mm.group(2)))
             elif d2.startswith("sig "):
                 opts["sig"] = d2[len("sig "):].strip()
+            elif d2.startswith("tail "):
+                opts["tail"] = d2[len("tail "):].strip().strip("`")
             elif d2.startswith("derive "):
                 opts["derive"] = d2[len("derive "):].strip()
             elif d2 == "nocanary":
@@ -249,7 +251,21 @@ def build(template_path, repo, variant="strict", inline=None):
             raise LostAnchor("file %s not found" % relfile)
         mclo = re.match(r"closure\s+(.*)#(\d+)$", selector)
         marg = re.match(r"callarg\s+`(.*)`\s+in\s+(.*)#(\d+)$", selector)
-        if marg:
+        mreg = re.match(r"region\s+`(.*)`\s+\.\.\s+`(.*)`\s+in\s+(.*)$", selector)
+        if mreg:
+            # a range of statements of a function that cannot be extracted as a whole (JSON/websocket/logging around a core
+            # loop), presented as a function: signature and result expression (`tail`) from the unit, statements from /repo
+            item = find_region(path, mreg.group(3).strip(), mreg.group(1), mreg.group(2))
+            if not opts.get("sig"):
+                raise ValueError("region extraction needs a `sig` option")
+            body = R.syn("{\n") + list(item.toks) + R.syn("\n" + (opts.get("tail") or "") + "\n}")
+            item.toks = R.syn(opts["sig"] + " ") + body
+            item.kind = "fn"
+            item.name = re.search(r"\bfn\s+(\w+)", opts["sig"]).group(1)
+            opts["rules"] = [r for r in opts["rules"] if r != "R2"]
+            opts["closure_sig"] = True
+            res.rewrites.append(("R18", "%s:%d-%d %s" % (relfile, item.line0, item.line1, selector), "statement range (everything else of the function is dropped)", opts["sig"] + (" ... " + opts["tail"] if opts.get("tail") else "")))
+        elif marg:
             # the argument expression of a call inside a function that cannot be extracted as a whole, presented as a function
             item = find_call_arg(path, marg.group(2).strip(), marg.group(1), int(marg.group(3)))
             if not opts.get("sig"):
